@@ -382,7 +382,7 @@ void reb_simulationarchive_init_from_buffer_with_messages(struct reb_simulationa
 }
 
 struct reb_simulationarchive* reb_simulationarchive_create_from_file(const char* filename){
-    struct reb_simulationarchive* sa = malloc(sizeof(struct reb_simulationarchive));
+    struct reb_simulationarchive* sa = calloc(1, sizeof(struct reb_simulationarchive)); // all pointers NULL: freed on every error path
     enum reb_simulation_binary_error_codes warnings = REB_SIMULATION_BINARY_WARNING_NONE;
     reb_simulationarchive_create_from_file_with_messages(sa, filename, NULL, &warnings);
     if (warnings & REB_SIMULATION_BINARY_ERROR_NOFILE){
